@@ -45,7 +45,19 @@ LeftPerfect  == n >= 2 => LET t == Root(n) IN
 Injective    == \A m \in 0..N : m # n => Root(m) # Root(n)
 SplitIsPow   == n >= 2 => Pow2(Split(n)) /\ Split(n) < n
 
-Row(k) == [n |-> k, shape |-> Root(k)]
+\* A leaf is the hash of the tag byte 0 followed by the WHOLE item, whatever its length: the construction
+\* never looks at item sizes.  Each shape is therefore replayed with items of every size class (all items
+\* of one class, and a rotation through the classes): around the hash and block sizes of Blake2b (32, 64,
+\* 65, 127, 128, 129), around 1 KiB and 4 KiB (buffers implementations like to keep on the stack), and a
+\* transaction-sized 70000 bytes.
+SizeClasses == <<0, 1, 32, 64, 65, 127, 128, 129, 1023, 1024, 1025, 4095, 4096, 4097, 70000>>
+LeafPreimageLen(len) == 1 + len
+SizesOf(k, p) == [i \in 1..k |-> IF p <= Len(SizeClasses) THEN SizeClasses[p]
+                                   ELSE SizeClasses[((i + k) % Len(SizeClasses)) + 1]]
+PreimageCoversItem == \A p \in 1..(Len(SizeClasses) + 1) : \A i \in 1..n :
+                          LeafPreimageLen(SizesOf(n, p)[i]) = SizesOf(n, p)[i] + 1
+Row(k) == [n |-> k, shape |-> Root(k),
+           sizes |-> [p \in 1..(Len(SizeClasses) + 1) |-> SizesOf(k, p)]]
 Emit == ndJsonSerialize("cases.ndjson", [k \in 1..(N + 1) |-> Row(k - 1)])
 ASSUME Emit
 =======================================================================
